@@ -152,6 +152,69 @@ def dense_op(proc, L):
     return np.kron(np.kron(np.eye(2**a), m), np.eye(2 ** (L - a - 2)))
 
 
+def dissipation_case(rng, L, local_dt=None):
+    """Real apply_dissipation on a random entangled state: (a) the vector afterwards vs prod_k exp(-dt/2 gamma_k L_k^+ L_k) v
+    computed densely, each process with ITS OWN strength; (b) the order in which the damping operators of the non-Pauli
+    processes are contracted in (identified by matching the operator handed to opt_einsum against each process's own
+    exponential) vs NoiseAttrib.damp_schedule.  Strengths are pairwise distinct so that the identification is unambiguous."""
+    import scipy.linalg
+
+    import mqt.yaqs.core.methods.dissipation as DM
+    from mqt.yaqs.core.data_structures.noise_model import NoiseModel
+    from mqt.yaqs.core.data_structures.simulation_parameters import AnalogSimParams, Observable
+
+    from drivers.C11 import random_mps
+
+    procs = random_processes(rng, L, nmax=5, allow_long=True)
+    if rng.random() < 0.6:  # the same process kind on several sites
+        nm_ = str(rng.choice(["lowering", "raising", "lowering", "pauli_x"]))
+        procs += [{"name": nm_, "sites": [int(q)], "strength": 0.3} for q in rng.choice(L, size=min(L, int(rng.integers(2, 4))), replace=False)]
+    for k, p in enumerate(procs):
+        p["strength"] = float(p["strength"]) + 0.013 * (k + 1)
+    nm = NoiseModel([dict(p) for p in procs])
+    mps = random_mps(rng, L, 3)
+    v = dense.mps_dense(mps)
+    dt = float(local_dt if local_dt is not None else rng.choice([0.1, 0.05, 0.5]))
+    par = AnalogSimParams([Observable("z", 0)], elapsed_time=dt, dt=dt, show_progress=False, threshold=1e-14, max_bond_dim=64)
+    expected_ops = {}
+    for k, p in enumerate(nm.processes):
+        if p["name"] not in PAULI_NAMES and "matrix" in p:
+            m = np.asarray(p["matrix"], dtype=complex)
+            expected_ops[k] = scipy.linalg.expm(-0.5 * dt * p["strength"] * (m.conj().T @ m))
+    order = []
+
+    class Proxy:
+        def __getattr__(self, name):
+            return getattr(real_oe, name)
+
+        def contract(self, spec, *ops, **kw):
+            if spec.replace(" ", "") == "ab,bcd->acd" and np.ndim(ops[0]) == 2:
+                hits = [k for k, e in expected_ops.items() if e.shape == np.shape(ops[0]) and np.allclose(e, ops[0], atol=1e-13)]
+                order.append(hits[0] if len(hits) == 1 else ("?", len(hits)))
+            return real_oe.contract(spec, *ops, **kw)
+
+    real_oe = DM.oe
+    DM.oe = Proxy()
+    try:
+        DM.apply_dissipation(mps, nm, dt, par)
+        err = None
+    except Exception as e:  # noqa: BLE001
+        err = f"EXC:{type(e).__name__}:{e}"
+    finally:
+        DM.oe = real_oe
+    want = v.copy()
+    for p in nm.processes:
+        lk = dense_op(p, L)
+        want = scipy.linalg.expm(-0.5 * dt * p["strength"] * (lk.conj().T @ lk)) @ want
+    got = None if err else dense.mps_dense(mps)
+    kinds = g_list([(f"One {p['sites'][0]}%nat" if len(p["sites"]) == 1 else f"Two {p['sites'][0]}%nat {p['sites'][1]}%nat") for p in nm.processes])
+    nonpauli = g_list([g_bool(k in expected_ops) for k in range(len(nm.processes))])
+    expr = f"map snd (filter (fun e => nth (snd e) {nonpauli} false) (damp_schedule {g_nat(L)} {kinds}))"
+    desc = {"L": L, "dt": dt, "processes": [(p["name"], p["sites"], p["strength"]) for p in nm.processes]}
+    dev = None if got is None else float(np.linalg.norm(got - want))
+    return desc, order, err, dev, expr
+
+
 def lottery_case(rng, L):
     """Real create_probability_distribution on a random (sub-normalised) state vs the model fed with dense norms."""
     from mqt.yaqs.core.data_structures.noise_model import NoiseModel
